@@ -5,6 +5,7 @@ import typing as t
 from functools import partial
 from functools import update_wrapper
 
+from ._internal import _wsgi_decoding_dance
 from .exceptions import ClientDisconnected
 from .exceptions import RequestEntityTooLarge
 from .sansio import utils as _sansio_utils
@@ -55,10 +56,10 @@ def get_current_url(
     }
 
     if not host_only:
-        parts["root_path"] = environ.get("SCRIPT_NAME", "")
+        parts["root_path"] = _wsgi_decoding_dance(environ.get("SCRIPT_NAME", ""))
 
         if not root_only:
-            parts["path"] = environ.get("PATH_INFO", "")
+            parts["path"] = _wsgi_decoding_dance(environ.get("PATH_INFO", ""))
 
             if not strip_querystring:
                 parts["query_string"] = environ.get("QUERY_STRING", "").encode("latin1")
